@@ -13,6 +13,7 @@ EXPLANATION = (
     '(R8) a channel is created idle with an empty queue and a zero byte counter. '
     "(R4 also: the unbusy notification is scheduled before the message's exit event.) "
     "(R9, shared with C08.R1) the two directions of a connection get distinct channel instances - busy state and queue are per direction. "
+    '(R10, shared with C03.R3) what a handler sends leaves the event buffer in emission order (offer order is preserved up to the channel). '
     "Decides these necessary conditions only; not numeric "
     "delays or behaviour over traffic patterns.")
 ASSUMPTIONS = ["VecDeque::push_back/pop_front are opposite ends", "a scheduled event is delivered (C01/C02)"]
